@@ -14,12 +14,16 @@ Oracles (all evaluated on what the real code did):
 Partial by nature: encoding/json, yaml.v3 and starlark are third-party decoders; they are
 covered by (1) and (3) only, not by any theorem.
 
-Known-finding classes, each evaluated on the failing input: makefile-bare-annotation-panic
+Loader.v mirrors the loaders WITH the repairs of C16-F1 (an empty '# @grog' block is skipped), C16-F2
+(Makefile annotations deliver fingerprint / platforms / timeout / environment_variables) and C16-F4 (a
+null entry in a targets / aliases list is an error): the model never predicts a panic, and a tree
+without one of these repairs fails the corresponding comparison.
+Known-finding classes (only those still listed in known_findings.txt and not named in the environment
+variable C16_IGNORE_FINDINGS=F1,F2,...), each evaluated on the failing input: makefile-bare-annotation-panic
 (Loader.mk_guard = false on the file's lines), makefile-drops-fields (the Makefile result equals the
 BUILD.json result of the package without the four fields), starlark-unbounded-execution (confirmed
 hang of a BUILD.star containing an iteration construct), null-list-element-panic (the real decoder
-delivers a nil entry in Targets / Aliases).  Where Loader.v mirrors a recorded defect (the panic,
-the dropped fields) an implementation that satisfies the property instead is accepted and noted.
+delivers a nil entry in Targets / Aliases).
 The extracted model is quadratic in the line length (List.rev), so the bufio token-too-long
 boundary is compared with a token limit of 300 on both sides (bufio.Scanner.Buffer in the harness,
 [maxlen] in Loader.split_lines); real-size long lines go through the robustness part only."""
@@ -33,6 +37,13 @@ TRUSTED = ("third-party decoders (encoding/json, yaml.v3, go.starlark.net, doubl
            "as oracle parameters; their agreement across formats is established by differential testing only",)
 INJECT = {os.path.join(vlib.REPO, "internal", "loading", "zz_verif_export.go"):
           os.path.join(vlib.HARNESS, "loader", "inject", "zz_verif_export.go")}
+
+def load_findings():
+    """known findings of C16 by class; C16_IGNORE_FINDINGS=F1,F4 (or C16-F1,...) drops entries, so that a
+    tree that still has the defect is reported as a VIOLATION (used to test the check itself)"""
+    ign = {x.strip().upper().replace("C16-", "") for x in os.environ.get("C16_IGNORE_FINDINGS", "").split(",") if x.strip()}
+    return {f["class"]: f for f in vlib.known_findings("C16") if f["id"].upper().replace("C16-", "") not in ign}
+
 
 # ------------------------------------------------------------------ generator
 FILES = ["src/a.txt", "src/b.txt", "src/sub/c.txt", "src/sub/d.md", "e.txt", "f.md", "src/sub/deep/g.txt"]
@@ -120,6 +131,8 @@ def gen_package(rng, wild=True):
     if wild and n > 1 and rng.chance(1, 12):
         names[0] = names[1]            # duplicate target name
     d = {"targets": [gen_target(rng, nm, names, wild) for nm in names]}
+    if wild and rng.chance(1, 14):
+        d["targets"].insert(rng.below(n + 1), None)        # a null list element (nil *TargetDTO)
     if rng.chance(1, 2):
         free = [x for x in NAMES + ["default", "al"] if x not in names]
         als = []
@@ -133,6 +146,8 @@ def gen_package(rng, wild=True):
             als.append({"name": "dup", "actual": ":b"})
         if wild and rng.chance(1, 15):
             als[0]["actual"] = "nolabel"
+        if wild and rng.chance(1, 14):
+            als.insert(rng.below(len(als) + 1), None)      # a null list element (nil *AliasDTO)
         d["aliases"] = als
     if rng.chance(1, 6):
         d["default_platforms"] = rng.choice([[], ["linux/arm64"], ["darwin/amd64", "linux/amd64"]])
@@ -145,6 +160,8 @@ def mk_projection(d):
     annotation schema).  fingerprint/platforms/timeout/environment_variables ARE in the schema."""
     ts = []
     for i, t in enumerate(d["targets"]):
+        if t is None:
+            return None               # annotations cannot say "null entry"
         goal = "goal%d" % i if not re.match(r"^[A-Za-z][A-Za-z0-9_.-]*$", t["name"]) else t["name"]
         if t["name"] == "":
             return None               # an empty annotation name means "use the goal": not the same package
@@ -157,8 +174,12 @@ def mk_projection(d):
 
 
 def strip_private(d):
-    return {"targets": [{k: v for k, v in t.items() if not k.startswith("_")} for t in d["targets"]],
+    return {"targets": [None if t is None else {k: v for k, v in t.items() if not k.startswith("_")} for t in d["targets"]],
             **{k: v for k, v in d.items() if k != "targets"}}
+
+
+def has_null(d):
+    return any(t is None for t in d.get("targets", [])) or any(a is None for a in d.get("aliases", []))
 
 
 # ------------------------------------------------------------------ renderers
@@ -171,6 +192,8 @@ def render_json(rng, d):
         return "{" + ", ".join(json.dumps(k) + ": " + val(v) for k, v in shuffled_items(rng, m)) + "}"
 
     def val(v):
+        if v is None:
+            return "null"
         if isinstance(v, dict):
             return obj(v)
         if isinstance(v, list):
@@ -222,7 +245,9 @@ def render_yaml_value(rng, v, ind):
             return " [" + ", ".join(yaml_scalar(rng, x) if not YAML_PLAIN.fullmatch(x) else '"' + x + '"' for x in v) + "]\n"
         out = "\n"
         for x in v:
-            if isinstance(x, dict):
+            if x is None:
+                out += pad + "- " + rng.choice(["~", "null", "Null", ""]) + "\n"
+            elif isinstance(x, dict):
                 items = shuffled_items(rng, x)
                 first = True
                 for k, y in items:
@@ -268,8 +293,8 @@ def star_val(rng, v):
 
 
 def render_star(rng, d):
-    """None when the package uses something BUILD.star cannot say (default_platforms)."""
-    if "default_platforms" in d:
+    """None when the package uses something BUILD.star cannot say (default_platforms, a null list entry)."""
+    if "default_platforms" in d or has_null(d):
         return None
     out = []
     for t in strip_private(d)["targets"]:
@@ -280,17 +305,31 @@ def render_star(rng, d):
 
 
 def render_makefile(rng, dm):
+    """A target without any setting has an empty annotation body.  Written as a lone '#' line it is a
+    target with defaults; written as nothing at all ('# @grog' directly followed by the goal) the block is
+    SKIPPED by the loader (what the script loader does with the same block; before the repair of C16-F1
+    it was the panic): such a target is marked "_bare" and mk_loaded() leaves it out of the expectation."""
     out = ["# generated\n"]
     for t in dm["targets"]:
-        ann = {k: v for k, v in t.items() if k not in ("command", "_goal")}
+        ann = {k: v for k, v in t.items() if k not in ("command", "_goal", "_bare")}
         if ann["name"] == t["_goal"] and rng.chance(1, 2):
             del ann["name"]
         body = "".join(k + ":" + render_yaml_value(rng, v, 2) for k, v in shuffled_items(rng, ann))
+        if not body:
+            if rng.chance(1, 2):
+                body = rng.choice(["\n", "\n\n"])      # '#' lines only: an empty annotation, the target exists
+            else:
+                t["_bare"] = True
         out.append("# @grog\n" + "".join(("# " + l if l else "#") + "\n" for l in body.split("\n")[:-1]))
         if rng.chance(1, 4):
             out.append("\n")
         out.append("%s:%s\n\techo %s\n\n" % (t["_goal"], rng.choice(["", " dep1", " a b"]), t["_goal"]))
     return "".join(out)
+
+
+def mk_loaded(dm):
+    """the projection a Makefile rendered by render_makefile loads to: without the skipped blocks"""
+    return {"targets": [t for t in dm["targets"] if not t.get("_bare")]}
 
 
 RENDER = {"json": ("BUILD.json", render_json), "yaml": ("BUILD.yaml", render_yaml), "star": ("BUILD.star", render_star)}
@@ -326,8 +365,8 @@ def sx_target(t):
 
 
 def sx_package(d):
-    return sx_list(["-", sx_list([sx_target(t) for t in d.get("targets", [])]),
-                    sx_list(["( %s %s )" % (hx(b(a["name"])), hx(b(a["actual"]))) for a in d.get("aliases", [])]),
+    return sx_list(["-", sx_list(["N" if t is None else sx_target(t) for t in d.get("targets", [])]),
+                    sx_list(["N" if a is None else "( %s %s )" % (hx(b(a["name"])), hx(b(a["actual"]))) for a in d.get("aliases", [])]),
                     sx_opt(d.get("default_platforms"))])
 
 
@@ -339,6 +378,8 @@ DUR.update({k: None for k in TIMEOUTS_BAD})
 def dur_table(d):
     rows = []
     for t in d.get("targets", []):
+        if t is None:
+            continue
         raw = t.get("timeout", "")
         if raw:
             rows.append("( %s %s )" % (hx(b(raw)), "E" if DUR.get(raw) is None else hx(DUR[raw])))
@@ -348,6 +389,8 @@ def dur_table(d):
 def patterns_of(d):
     ps = set()
     for t in d.get("targets", []):
+        if t is None:
+            continue
         ps.update(t.get("inputs") or [])
         ps.update(t.get("exclude_inputs") or [])
     return ps
@@ -381,7 +424,8 @@ def canon_pkg(p, keep_path=True):
 def err_class(msg):
     if "duplicate target label" in msg or "duplicate alias label" in msg:
         return "duplicate"
-    for pat, c in (("failed to resolve inputs", "glob"), ("failed to parse outputs", "output"),
+    for pat, c in (("contains a null target entry", "nulltarget"), ("contains a null alias entry", "nullalias"),
+                   ("failed to resolve inputs", "glob"), ("failed to parse outputs", "output"),
                    ("failed to parse bin output", "binoutput"), ("must be of type file", "binnotfile"),
                    ("failed to parse timeout", "timeout"), ("failed to decode JSON", "decode"),
                    ("failed to evaluate Starlark", "decode"), ("failed to parse annotation block", "yaml"),
@@ -495,15 +539,17 @@ def build_xcase(rng, base, i, wild):
             case["files"][fmt] = [fn, txt]
     dm = mk_projection(d)
     if dm is not None:
-        case["dto_mk"] = strip_private(dm)
         case["files"]["mk"] = ["Makefile", render_makefile(rng, dm)]
+        case["mk_skipped"] = sum(1 for t in dm["targets"] if t.get("_bare"))
+        dm = mk_loaded(dm)
+        case["dto_mk"] = strip_private(dm)
         case["files"]["mkjson"] = ["BUILD.json", render_json(rng, dm)]
         case["files"]["mkjson0"] = ["BUILD.json", render_json(rng, drop_fields(strip_private(dm)))]
     return case
 
 
 def drop_fields(dm):
-    """the projection minus the four annotation fields handleTarget never copies"""
+    """the projection minus the four annotation fields (what a Makefile loader with C16-F2 delivers)"""
     return {"targets": [{k: v for k, v in t.items() if k not in ("fingerprint", "platforms", "environment_variables", "timeout")}
                         for t in dm["targets"]]}
 
@@ -528,9 +574,9 @@ def eval_xformat(out, h, drv, base, cases, findings, stats):
         for p, a in zip(pats, ans):
             f = a.split("\t")
             globs[p] = None if f[0] != "ok" else [unhx(x).decode("utf-8", "surrogateescape") for x in (f[1].split(",") if len(f) > 1 and f[1] else [])]
-    impl_lines, idx = [], []
+    impl_lines, idx, locs = [], [], {}
     for c in cases:
-        loc = materialise(base, c)
+        loc = locs[c["id"]] = materialise(base, c)
         for fmt, (root, path, fn) in loc.items():
             impl_lines.append("loadfile\t%s\t%s\t%s" % (hx(b(root)), hx(b(path)), hx(b(fn))))
             idx.append((c["id"], fmt))
@@ -570,9 +616,18 @@ def eval_xformat(out, h, drv, base, cases, findings, stats):
             for k in ("mk", "mkjson", "mkjson0"):
                 obs.pop(k, None)
         bad = [(fmt, o) for fmt, o in obs.items() if o[0] in ("panic", "hang")]
+        nil_known = False
         for fmt, o in bad:
+            if o[0] == "panic" and fmt in ("json", "yaml") and has_null(c["dto"]) and "null-list-element-panic" in findings \
+                    and nil_elements(h, locs[cid][fmt][1], c["files"][fmt][0], b(c["files"][fmt][1])):
+                out.known(findings["null-list-element-panic"]["id"], NIL_TEXT % (c["files"][fmt][1][:50], o[2][:70]))
+                stats["robust_known"] += 1
+                nil_known = True
+                continue
             out.violation("loader %s %s on a generated %s" % (fmt, o[0], c["files"][fmt][0]),
                           dict(c, failing_format=fmt, observed=o[0], detail=o[2]))
+        if nil_known:
+            continue
         full = {fmt: pkg_obs(obs[fmt]) for fmt in ("json", "yaml", "star") if fmt in obs}
         stats["xformat_loads"] += len(obs)
         vals = set(full.values())
@@ -597,11 +652,11 @@ def eval_xformat(out, h, drv, base, cases, findings, stats):
             mj0 = pkg_obs(obs["mkjson0"]) if "mkjson0" in obs else None
             mm = pkg_obs(obs_model(model[(cid, "mk")])) if (cid, "mk") in model else None
             if mk == mj:
-                if mk != mj0 and (cid, "mkfull") in model:
-                    # all declared fields reach the target (a repaired handleTarget): the model to compare
-                    # with is enrichment of the full projection, not mk_target's (which mirrors C16-F2)
+                stats["makefile_skipped_blocks"] += c.get("mk_skipped", 0)
+                # all declared fields reach the target: the model is enrichment of the full projection
+                # (Loader.mk_target = full_dto, C16_makefile_fields)
+                if (cid, "mkfull") in model:
                     mm = pkg_obs(obs_model(model[(cid, "mkfull")]))
-                    stats["makefile_repaired"] += 1
             elif mk == mj0 and "makefile-drops-fields" in findings:
                 # class evaluated on the observations: the Makefile result differs from the JSON
                 # result and equals the JSON result of the package with exactly these fields removed
@@ -652,7 +707,7 @@ def _quick_probe(n=40, seed=1):
     base = os.path.join(vlib.scratch(), "xf")
     cases = [build_xcase(rng, base, i, i % 3 != 0) for i in range(n)]
     st = new_stats()
-    findings = {f["class"]: f for f in vlib.known_findings("C16")}
+    findings = load_findings()
     findings.setdefault("makefile-drops-fields", {"id": "C16-F2"})
     findings.setdefault("makefile-bare-annotation-panic", {"id": "C16-F1"})
     eval_xformat(out, h, drv, base, cases, findings, st)
@@ -733,9 +788,14 @@ def strip_dropped_dto(dump):
                        for t in json.loads(dump)], sort_keys=True)
 
 
+def four_fields_empty(dump):
+    return all(not t["fingerprint"] and not t["env"] and not t["has_platforms"] and t["timeout"] in ("", "-") for t in json.loads(dump))
+
+
 def eval_scanners(out, h, drv, cases, findings, stats):
     """cases: [(kind 'mk'|'sh', content bytes[, token limit])] -- real scanner vs Loader.scan_*_file with the
-    real YAML decoder as oracle; panic classes decided by Loader.mk_guard."""
+    real YAML decoder as oracle; the model never panics; the class of a panic of the real Makefile scanner
+    (C16-F1, while listed) is decided by Loader.mk_guard."""
     fname = "x.grog.sh"
     cases = [(c[0], c[1], c[2] if len(c) > 2 else None) for c in cases]
     sfx = lambda n: ("\t%d" % n) if n else ""
@@ -777,17 +837,17 @@ def eval_scanners(out, h, drv, cases, findings, stats):
                 stats["scanner_known_panics"] += 1
             else:
                 out.violation("%s annotation scanner: %s on %r" % ("Makefile" if k == "mk" else "script", ist, c[:80]), rep)
-                continue
-        if mst == "panic" and guard is False and ist in ("ok", "error"):
-            # the property's oracle holds on the implementation where the model (faithful to the
-            # recorded defect C16-F1) predicts the panic: a repaired scanner, accepted in either form
-            stats["scanner_repaired"] += 1
             continue
-        if k == "mk" and io != mo_ and io[0] == mo_[0] == "ok" and io[1] == mo_[1] and strip_dropped_dto(io[2]) == strip_dropped_dto(mo_[2]):
-            # same DTOs except that the implementation delivers (some of) the four declared fields the
-            # model's mk_target drops (C16-F2 mirrored): a repaired handleTarget; values are judged by the
-            # cross-format comparison with BUILD.json
-            stats["makefile_repaired"] += 1
+        if mst == "panic":
+            raise RuntimeError("Loader.scan_*_file answered panic (contradicts C16_scan_no_panic / C16_script_scan_no_panic): " + m[:200])
+        if k == "mk" and io != mo_ and io[0] == mo_[0] == "ok" and io[1] == mo_[1] and "makefile-drops-fields" in findings \
+                and strip_dropped_dto(io[2]) == strip_dropped_dto(mo_[2]) and four_fields_empty(io[2]):
+            # class of C16-F2 evaluated on the observation: the same DTOs as the model's, except that the four
+            # declared fields the model's mk_target copies are all empty in what the implementation delivers
+            out.known(findings["makefile-drops-fields"]["id"],
+                      "Makefile %r: the annotation sets fingerprint/platforms/timeout/environment_variables and the TargetDTO "
+                      "delivered by makefileParser has none of them" % c[:60].decode("latin-1"))
+            stats["makefile_dropped"] += 1
             continue
         if io != mo_:
             out.violation("correspondence Loader.scan_%s ~ real scanner broke on %r: impl %s, model %s" % (
@@ -991,7 +1051,7 @@ def scanner_cases(rng, xcases, n_mut):
     cases = [("mk", c, LONG) for c in SCAN_NASTIES] + [("sh", c, LONG) for c in SCAN_NASTIES]
     seeds = [("mk", b(c["files"]["mk"][1])) for c in xcases if "mk" in c["files"]]
     for c in xcases:
-        for t in c["dto"]["targets"][:1]:
+        for t in [t for t in c["dto"]["targets"] if t is not None][:1]:
             seeds.append(("sh", b(render_script(rng, t))))
     cases += seeds[:max(40, n_mut // 4)]
     for _ in range(n_mut):
@@ -1008,7 +1068,8 @@ def robustness_cases(rng, xcases, n_mut):
         for fmt, (fn, txt) in c["files"].items():
             if fmt in ("json", "yaml", "star", "mk"):
                 pool.append((fn, b(txt), "case %d %s" % (c["id"], fmt)))
-        pool.append(("x.grog.sh", b(render_script(rng, c["dto"]["targets"][0])), "case %d script" % c["id"]))
+        for t in [t for t in c["dto"]["targets"] if t is not None][:1]:
+            pool.append(("x.grog.sh", b(render_script(rng, t)), "case %d script" % c["id"]))
     for _ in range(n_mut):
         fn, c, origin = rng.choice(pool)
         if fn == "BUILD.yaml" and rng.chance(1, 8):
@@ -1051,7 +1112,7 @@ def restrict_package(rng, d, used, root):
     return d
 
 
-def build_dcase(rng, drv, i):
+def build_dcase(rng, drv, i, findings=None):
     """a workspace of 2-4 directories with 1-3 BUILD files each, all names distinct; one workspace in
     three gets exactly ONE label declared twice by two files of one directory (target/target,
     target/alias, alias/target or alias/alias, in file order) and nothing else that is rejected"""
@@ -1089,8 +1150,9 @@ def build_dcase(rng, drv, i):
             if dm is None or not dm["targets"]:
                 continue
             txt = render_makefile(rng, dm)
-            if not model_guards(drv, [txt])[0]:
-                continue        # the panicking shape (known finding, judged elsewhere) would kill the whole LoadPackages
+            if "makefile-bare-annotation-panic" in (findings or {}) and not model_guards(drv, [txt])[0]:
+                continue        # while C16-F1 is a known finding (judged elsewhere): the shape would kill the whole LoadPackages
+            dm = mk_loaded(dm)
             files.append([pkg, "Makefile", txt])
             frags.append([pkg, drop_fields(strip_private(dm))])
             alt.append([pkg, strip_private(dm)])
@@ -1099,8 +1161,8 @@ def build_dcase(rng, drv, i):
             files.append([pkg, fn, rend(rng, d)])
             frags.append([pkg, d])
             alt.append([pkg, d])
-    # frags: what the loaders deliver today (Makefile annotations without the four dropped fields, C16-F2);
-    # frags_repaired: the same with those fields (what a repaired Makefile loader delivers)
+    # frags_repaired: what the loaders deliver (= Loader.v); frags: the same with the Makefile annotations
+    # stripped of the four fields (what a Makefile loader with C16-F2 delivers: class check only)
     return {"kind": "determinism", "id": i, "files": files, "frags": frags, "frags_repaired": alt, "collide": collide}
 
 
@@ -1151,6 +1213,8 @@ def merge_line(frags, globs):
 def dur_rows(d):
     rows = []
     for t in d.get("targets", []):
+        if t is None:
+            continue
         raw = t.get("timeout", "")
         if raw:
             rows.append("( %s %s )" % (hx(b(raw)), "E" if DUR.get(raw) is None else hx(DUR[raw])))
@@ -1170,7 +1234,8 @@ def reference_globs(h, base, pats):
 WORKERS = (1, 2, 16)
 
 
-def eval_determinism(out, h, drv, base, rng, dcases, stats):
+def eval_determinism(out, h, drv, base, rng, dcases, stats, findings=None):
+    findings = findings or {}
     pats = sorted(set().union(*[patterns_of(d) for c in dcases for _, d in c["frags"] + c.get("frags_repaired", [])]) if dcases else [])
     globs = reference_globs(h, base, pats)
     lines, idx = [], []
@@ -1186,9 +1251,10 @@ def eval_determinism(out, h, drv, base, rng, dcases, stats):
     impl = dict(zip(idx, run_harness(h, lines)))
     mlines = []
     for c in dcases:
+        full = c.get("frags_repaired", c["frags"])
+        mlines.append(merge_line(full, globs))
+        mlines.append(merge_line(vlib.Rng(rng.next()).shuffle(full), globs))
         mlines.append(merge_line(c["frags"], globs))
-        mlines.append(merge_line(vlib.Rng(rng.next()).shuffle(c["frags"]), globs))
-        mlines.append(merge_line(c.get("frags_repaired", c["frags"]), globs))
     rc, mo, me = vlib.run_lines(drv, mlines)
     if rc != 0 or len(mo) != len(mlines):
         raise RuntimeError("model driver failed on merge rc=%s %d/%d %s" % (rc, len(mo), len(mlines), me[-400:]))
@@ -1217,9 +1283,12 @@ def eval_determinism(out, h, drv, base, rng, dcases, stats):
             out.violation("Loader.load_all gives different results for two arrival orders of the same fragments (contradicts "
                           "C16_merge_order_independent): %s vs %s" % (diff_hint(m1), diff_hint(m2)),
                           {"theorem": "C16_merge_order_independent", "case": c, "model": [list(m1), list(m2)]}, no_input=True)
-        elif m1 not in vals and m3 in vals:
-            stats["makefile_repaired"] += 1
-            stats["traces"] += len(obs)
+        elif m1 not in vals and m3 in vals and "makefile-drops-fields" in findings:
+            # m3 = the model on the fragments without the four Makefile annotation fields: the class of C16-F2
+            out.known(findings["makefile-drops-fields"]["id"],
+                      "LoadPackages on a workspace with an annotated Makefile delivers the graph of the workspace whose Makefile "
+                      "annotations lack fingerprint/platforms/timeout/environment_variables")
+            stats["makefile_dropped"] += 1
         elif m1 not in vals:
             out.violation("correspondence Loader.load_all ~ LoadPackages + BuildNodeMapFromPackages broke: model %s, implementation %s "
                           "(all six loads of the workspace agree with each other)" % (diff_hint(m1), diff_hint(next(iter(vals)))),
@@ -1323,6 +1392,7 @@ def eval_cli(out, grog, drv, h, base, rng, n_pkgs, corrupt, findings, stats):
         dm = mk_projection(d)
         if dm is not None:
             c["files"]["mk"] = ["Makefile", render_makefile(rng, dm)]
+            dm = mk_loaded(dm)
             c["files"]["mkjson"] = ["BUILD.json", render_json(rng, dm)]
             c["files"]["mkjson0"] = ["BUILD.json", render_json(rng, drop_fields(strip_private(dm)))]
         cases.append(c)
@@ -1437,9 +1507,9 @@ def hang_probe(out_box, h, grog_future, drv, base, findings):
 
 
 def new_stats():
-    return {"xformat_cases": 0, "xformat_loads": 0, "makefile_cases": 0, "makefile_dropped": 0, "makefile_bare_panics": 0, "traces": 0,
+    return {"xformat_cases": 0, "xformat_loads": 0, "makefile_cases": 0, "makefile_dropped": 0, "makefile_bare_panics": 0, "makefile_skipped_blocks": 0, "traces": 0,
             "outcomes": {}, "nontrivial": set(),
-            "scanner_cases": 0, "scanner_outcomes": {}, "scanner_known_panics": 0, "scanner_repaired": 0, "makefile_repaired": 0,
+            "scanner_cases": 0, "scanner_outcomes": {}, "scanner_known_panics": 0,
             "robust_cases": 0, "robust_outcomes": {}, "robust_known": 0, "hangs_reexamined": 0,
             "det_cases": 0, "det_loads": 0, "det_outcomes": {},
             "cli_runs": 0, "cli_known": 0, "cli_outcomes": {}, "cli_corrupt": {}}
@@ -1468,7 +1538,7 @@ def run(out, tier):
     quick = tier != "thorough"
     vol = 1 if quick else 10
     rng = vlib.Rng(vlib.seed())
-    findings = {f["class"]: f for f in vlib.known_findings("C16")}
+    findings = load_findings()
     st = new_stats()
     base = os.path.join(vlib.scratch(), "c16")
     os.makedirs(base, exist_ok=True)
@@ -1518,12 +1588,12 @@ def run(out, tier):
                 corrupt_for_cli.append((fn, content, s))
         corrupt_for_cli += [(fn, c, s) for (fn, c, o), s in res if s == "ok" and o.startswith("mutation")][:6 * vol]
         # (2) determinism
-        dcases = [build_dcase(rng, drv, i) for i in range(40 * vol)]
-        eval_determinism(out, h, drv, base, rng, dcases, st)
+        dcases = [build_dcase(rng, drv, i, findings) for i in range(40 * vol)]
+        eval_determinism(out, h, drv, base, rng, dcases, st, findings)
         samples.append({"part": "determinism", "files": [[p, fn, txt[:200]] for p, fn, txt in dcases[0]["files"]],
                         "loads": ["%s creation order, num_workers=%d" % (t_, w_) for t_ in ("sorted", "shuffled") for w_ in WORKERS]})
-    corrupt_for_cli += [("Makefile", b"# @grog\nfoo:\n\techo hi\n", "panic"), ("BUILD.json", b'{"targets": [null]}', "panic"),
-                        ("BUILD.yaml", b"aliases:\n  - ~\n", "panic"), ("BUILD.json", b"{", "error"),
+    corrupt_for_cli += [("Makefile", b"# @grog\nfoo:\n\techo hi\n", "F1-input"), ("BUILD.json", b'{"targets": [null]}', "F4-input"),
+                        ("BUILD.yaml", b"aliases:\n  - ~\n", "F4-input"), ("BUILD.json", b"{", "error"),
                         ("BUILD.yaml", b"targets: [", "error"), ("BUILD.star", b"target(", "error")]
     # (4) CLI
     grog = grog_f.result()
@@ -1533,12 +1603,6 @@ def run(out, tier):
     pool.shutdown()
     judge_hang_probe(out, hang_box, findings, st)
 
-    if st["scanner_repaired"]:
-        out.notes.append("the Makefile scanner no longer panics on %d inputs of the shape excluded by mk_guard (C16-F1 looks repaired): "
-                         "Loader.mk_handle still mirrors the panic and C16_scan_no_panic_refuted speaks about that model -- update Loader.v" % st["scanner_repaired"])
-    if st["makefile_repaired"]:
-        out.notes.append("Makefile annotations now deliver fingerprint/platforms/timeout/environment_variables on %d packages (C16-F2 looks "
-                         "repaired): Loader.mk_target still mirrors the drop -- update Loader.v" % st["makefile_repaired"])
     evaluations = st["xformat_loads"] + st["scanner_cases"] + st["robust_cases"] + st["det_loads"] + st["cli_runs"]
     out.cov.update({
         "evaluations": evaluations,
@@ -1553,7 +1617,8 @@ def run(out, tier):
         "input_distribution": {
             "cross_format": {"cases": st["xformat_cases"], "loads": st["xformat_loads"], "outcomes": st["outcomes"],
                              "makefile_projection_cases": st["makefile_cases"], "makefile_fields_dropped": st["makefile_dropped"],
-                             "makefile_bare_panics": st["makefile_bare_panics"]},
+                             "makefile_bare_panics": st["makefile_bare_panics"],
+                             "makefile_empty_blocks_skipped_as_expected": st["makefile_skipped_blocks"]},
             "scanners": {"cases": st["scanner_cases"], "outcomes": st["scanner_outcomes"], "known_panics": st["scanner_known_panics"]},
             "robustness": {"cases": st["robust_cases"], "outcomes": st["robust_outcomes"], "known": st["robust_known"],
                            "hangs_reexamined": st["hangs_reexamined"]},
@@ -1616,7 +1681,7 @@ def judge_hang_probe(out, box, findings, stats):
 # ------------------------------------------------------------------ replay
 def replay(out, path):
     rp = json.load(open(path))["replay"]
-    findings = {f["class"]: f for f in vlib.known_findings("C16")}
+    findings = load_findings()
     st = new_stats()
     base = os.path.join(vlib.scratch(), "c16replay")
     drv = vlib.build_driver("loader")
@@ -1652,7 +1717,7 @@ def replay(out, path):
                                         findings, st)
         print("robustness outcome:", res[0][1])
     elif kind == "determinism":
-        eval_determinism(out, h, drv, base, vlib.Rng(vlib.seed()), [case], st)
+        eval_determinism(out, h, drv, base, vlib.Rng(vlib.seed()), [case], st, findings)
         print("determinism outcomes:", st["det_outcomes"])
     else:
         raise RuntimeError("replay: unknown replay kind %r" % kind)
